@@ -69,12 +69,7 @@ class SetupGen:
         self.rich = rich
 
     def add_book(self, used, dim, vq, style=None):
-        if len(self.books) >= 250:
-            # reuse an existing compatible book
-            for i, b in enumerate(self.books):
-                if (b["maptype"] != 0) == vq and b["dim"] == dim:
-                    return i
-            return 0
+        assert len(self.books) < 250, "generator invariant: at most ~170 books per set-up"
         self.books.append(gen_book(self.rng, used, dim, vq, style))
         return len(self.books) - 1
 
@@ -150,12 +145,18 @@ class SetupGen:
         gb = self.add_book(max(need, rng.choice([need, need, need + 1, need + 7]), 1) if need > 1 else rng.choice([1, 2, 5]), pdim, False,
                            None if need > 1 else "plain")
         casc, books = [], []
+        pool = []            # at most 6 fresh value books per residue, then reuse
+        def stage_book():
+            if len(pool) < 6:
+                pool.append(self.vq_book())
+                return pool[-1]
+            return rng.choice(pool)
         for _ in range(parts):
             c = rng.choice([0, 1, 1, 2, 3, 3, 4, 5, 7, 0x80, 0x81, 0x0f, 0xff, rng.below(256)]) if self.rich else rng.choice([0, 1, 3])
             casc.append(c)
             for k in range(8):
                 if c >> k & 1:
-                    books.append(self.vq_book())
+                    books.append(stage_book())
         half = self.bs1 // 2
         mult = self.ch if typ == 2 else 1
         if not self.rich:
